@@ -165,6 +165,111 @@ Proof.
   discriminate.
 Qed.
 
+(* ... and the table holds nothing else: every entry is a single documented letter with
+   its documented constant; STATUS_ZOMBIE is "zombie" *)
+Lemma status_table_sound :
+  forallb (fun e => match fst e with
+                    | [c] => match spec_status documented_statuses c with
+                             | Some v => beqb v (snd e)
+                             | None => false
+                             end
+                    | _ => false
+                    end) proc_statuses = true.
+Proof. vm_compute. reflexivity. Qed.
+Lemma status_zombie_const : beqb status_zombie (bs "zombie") = true.
+Proof. vm_compute. reflexivity. Qed.
+
+Definition entry_sound (e : bytes * bytes) : bool :=
+  match fst e with
+  | [c] => match spec_status documented_statuses c with Some v => beqb v (snd e) | None => false end
+  | _ => false
+  end.
+
+Lemma status_get_unknown_letter tbl c :
+  forallb entry_sound tbl = true -> spec_status documented_statuses c = None -> status_get tbl [c] = [63].
+Proof.
+  intros H Hc. induction tbl as [|[k v] tbl IH]; [reflexivity|]. cbn [forallb] in H.
+  apply andb_true_iff in H as [He Ht]. cbn [status_get].
+  unfold entry_sound in He. cbn [fst snd] in He.
+  destruct k as [|c' [|x k]]; try discriminate.
+  cbn [beqb]. destruct (Z.eqb_spec c c') as [->|]; [|now apply IH].
+  rewrite Hc in He. discriminate.
+Qed.
+
+Lemma status_get_not_letter tbl t :
+  forallb entry_sound tbl = true -> length t <> 1%nat -> status_get tbl t = [63].
+Proof.
+  intros H Ht. induction tbl as [|[k v] tbl IH]; [reflexivity|]. cbn [forallb] in H.
+  apply andb_true_iff in H as [He Htb]. cbn [status_get].
+  unfold entry_sound in He. cbn [fst snd] in He.
+  destruct k as [|c' [|x k]]; try discriminate.
+  assert (beqb t [c'] = false) as ->; [|now apply IH].
+  destruct t as [|a [|b t]]; [reflexivity|now elim Ht|]. cbn [beqb]. apply andb_false_r.
+Qed.
+
+(* the code's table, as a function of the state token, IS the documented mapping with '?' elsewhere *)
+Theorem status_get_total t : status_get proc_statuses t = spec_status_tok t.
+Proof.
+  unfold spec_status_tok. destruct t as [|c [|b t]].
+  - apply status_get_not_letter; [exact status_table_sound|discriminate].
+  - destruct (spec_status documented_statuses c) as [s|] eqn:E.
+    + now destruct (documented_letter c s E).
+    + now apply status_get_unknown_letter; [exact status_table_sound|].
+  - apply status_get_not_letter; [exact status_table_sound|discriminate].
+Qed.
+
+(* status() for EVERY ASCII state token: documented letter -> its constant, anything else -> '?' *)
+Theorem status_total r t :
+  wf_kstat r = true -> fld 3 r = Some t -> is_ascii t = true ->
+  status (k_stat r) = Val (spec_status_tok t).
+Proof.
+  intros H Hf Ha. use_roundtrip r H x Hx Hp F. unfold status. rewrite Hp. cbn [obind].
+  destruct F as (_ & F3 & _). rewrite Hf in F3. injection F3 as <-.
+  rewrite Ha. now rewrite status_get_total.
+Qed.
+
+(* _is_zombie looks at the first byte of the state field *)
+Lemma is_zombie_stat r t :
+  wf_kstat r = true -> fld 3 r = Some t ->
+  is_zombie (k_stat r) = match t with 90 :: [] => true | 90 :: _ => true | _ => false end.
+Proof.
+  intros H Hf. apply wf_kstat_0 in H as [H0 _]. unfold wf_kstat0 in H0.
+  apply andb_true_iff in H0 as [_ Ha].
+  unfold is_zombie. rewrite after_rpar_stat by assumption. unfold k_tail.
+  unfold fld in Hf. cbn [Nat.sub] in Hf.
+  destruct (k_after r) as [|t0 rest]; [discriminate|]. cbn [nth_error] in Hf. injection Hf as ->.
+  cbn [forallb] in Ha. apply andb_true_iff in Ha as [Ht _]. apply fld_ok_tok in Ht as [Ht _].
+  apply tok_ok_spec in Ht as [Hne _].
+  destruct t as [|c t]; [congruence|].
+  assert (K : (c =? 90) = match c with 90 => match t with [] | _ => true end | _ => false end).
+  { destruct (Z.eqb_spec c 90) as [->|N].
+    - destruct t; reflexivity.
+    - destruct c as [|q|q]; try reflexivity.
+      do 7 (destruct q as [q|q|]; try reflexivity). congruence. }
+  rewrite <- K.
+  destruct rest; cbn [join app firstn beqb]; apply andb_true_r.
+Qed.
+
+(* the public status(): when the first read of the stat file fails because the task is
+   being reaped and the re-read shows state Z, the front end answers STATUS_ZOMBIE -- the
+   documented constant of the letter the kernel publishes *)
+Theorem status_front_zombie r first e :
+  wf_kstat r = true -> fld 3 r = Some [90] -> first = SESRCH \/ first = SENOENT ->
+  status_public (wrapped status first (SData (k_stat r)) e) = Val (bs "zombie")
+  /\ spec_status documented_statuses 90 = Some (bs "zombie").
+Proof.
+  intros H Hf Hfirst. split; [|reflexivity].
+  pose proof (is_zombie_stat r [90] H Hf) as Z. cbv iota in Z.
+  assert (C : status_zombie = bs "zombie") by (apply beqb_eq; exact status_zombie_const).
+  destruct Hfirst as [-> | ->]; cbn [wrapped]; rewrite Z; cbn [status_public]; now rewrite C.
+Qed.
+
+(* without a read fault the front end adds nothing *)
+Theorem status_front_plain r t s2 e :
+  wf_kstat r = true -> fld 3 r = Some t -> is_ascii t = true ->
+  status_public (wrapped status (SData (k_stat r)) s2 e) = Val (spec_status_tok t).
+Proof. intros H Hf Ha. cbn [wrapped]. now rewrite (status_total r t H Hf Ha). Qed.
+
 Theorem status_exact r c s :
   wf_kstat r = true -> fld 3 r = Some [c] -> spec_status documented_statuses c = Some s ->
   status (k_stat r) = Val s.
@@ -212,6 +317,65 @@ Proof.
   rewrite py_float_dec by assumption. reflexivity.
 Qed.
 
+Theorem create_time_mono_exact clk r st :
+  wf_kstat r = true -> fld 22 r = Some st -> is_dec st = true ->
+  create_time_mono clk (k_stat r) = Val (secs clk st).
+Proof.
+  intros H Hf Hd. use_roundtrip r H x Hx Hp F. unfold create_time_mono. rewrite Hp. cbn [obind].
+  destruct F as (_ & _ & _ & _ & _ & _ & _ & _ & F22 & _). rewrite Hf in F22. injection F22 as <-.
+  rewrite py_float_dec by assumption. reflexivity.
+Qed.
+
+(* every record length: N >= 39 fields (what wf_kstat says); field (42) is reported exactly
+   when N >= 42, and nothing else depends on N *)
+Lemma wf_kstat_N r : wf_kstat r = true -> (39 <= nfields r)%nat.
+Proof. intros H. apply wf_kstat_0 in H as [_ H]. unfold nfields. lia. Qed.
+
+Lemma fld42_N r : (fld 42 r = None <-> (nfields r < 42)%nat).
+Proof. unfold fld, nfields. cbn [Nat.sub]. rewrite nth_error_None. lia. Qed.
+
+Theorem stat_fields_by_N r :
+  wf_kstat r = true ->
+  exists x, parse_stat_file (k_stat r) = Val x /\
+    ps_name x = k_comm r /\
+    fld 3 r = Some (ps_status x) /\ fld 4 r = Some (ps_ppid x) /\ fld 7 r = Some (ps_ttynr x) /\
+    fld 14 r = Some (ps_utime x) /\ fld 15 r = Some (ps_stime x) /\
+    fld 16 r = Some (ps_cutime x) /\ fld 17 r = Some (ps_cstime x) /\
+    fld 22 r = Some (ps_ctime x) /\ fld 39 r = Some (ps_cpunum x) /\
+    ((nfields r < 42)%nat -> ps_blkio x = None) /\
+    ((42 <= nfields r)%nat -> exists b, fld 42 r = Some b /\ ps_blkio x = Some b).
+Proof.
+  intros H. use_roundtrip r H x Hx Hp F. exists x. split; [exact Hp|].
+  destruct F as (F1 & F3 & F4 & F7 & F14 & F15 & F16 & F17 & F22 & F39 & F42).
+  repeat (split; [assumption|]). split.
+  - intros HN. rewrite <- F42. now apply fld42_N.
+  - intros HN. destruct (fld 42 r) as [b|] eqn:E.
+    + exists b. auto.
+    + apply fld42_N in E. lia.
+Qed.
+
+(* iowait: delayacct_blkio_ticks / CLK when the kernel prints field (42), 0 on older kernels *)
+Theorem cpu_times_old_kernel clk r ut stm cut cst :
+  wf_kstat r = true -> (nfields r < 42)%nat ->
+  fld 14 r = Some ut -> fld 15 r = Some stm -> fld 16 r = Some cut -> fld 17 r = Some cst ->
+  is_dec ut = true -> is_dec stm = true -> is_dec cut = true -> is_dec cst = true ->
+  cpu_times clk (k_stat r) = Val [secs clk ut; secs clk stm; secs clk cut; secs clk cst; 0 # clk].
+Proof.
+  intros H HN F14 F15 F16 F17 D14 D15 D16 D17. apply fld42_N in HN.
+  rewrite (cpu_times_exact clk r ut stm cut cst) by (try assumption; now rewrite HN).
+  now rewrite HN.
+Qed.
+Theorem cpu_times_iowait clk r ut stm cut cst b :
+  wf_kstat r = true -> fld 42 r = Some b ->
+  fld 14 r = Some ut -> fld 15 r = Some stm -> fld 16 r = Some cut -> fld 17 r = Some cst ->
+  is_dec ut = true -> is_dec stm = true -> is_dec cut = true -> is_dec cst = true -> is_dec b = true ->
+  cpu_times clk (k_stat r) = Val [secs clk ut; secs clk stm; secs clk cut; secs clk cst; secs clk b].
+Proof.
+  intros H F42 F14 F15 F16 F17 D14 D15 D16 D17 D42.
+  rewrite (cpu_times_exact clk r ut stm cut cst) by (try assumption; now rewrite F42).
+  now rewrite F42.
+Qed.
+
 (* a record with a hostile name satisfies the hypotheses *)
 Definition ex_kstat : kstat :=
   {| k_pid := bs "4242"; k_comm := bs "a) b) (c" ++ [10; 255] ++ bs " S 1 ";
@@ -221,4 +385,15 @@ Example ex_kstat_wf :
   wf_kstat ex_kstat = true /\ fld 3 ex_kstat = Some [116] /\ fld 4 ex_kstat = Some (bs "7")
   /\ spec_status documented_statuses 116 = Some (bs "tracing-stop")
   /\ fld 42 ex_kstat = Some (bs "9") /\ fld 39 ex_kstat = Some (bs "3").
+Proof. vm_compute. repeat split; reflexivity. Qed.
+
+(* the shortest record a kernel prints (N = 39), the last one without blkio (N = 41), N = 42 *)
+Definition ex_short (n : nat) : kstat :=
+  {| k_pid := bs "1"; k_comm := bs "init) (";
+     k_after := bs "S" :: map (fun i => bs "7") (seq 0 (n - 3)) |}.
+Example ex_short_N :
+  wf_kstat (ex_short 39) = true /\ nfields (ex_short 39) = 39%nat /\ fld 42 (ex_short 39) = None
+  /\ wf_kstat (ex_short 41) = true /\ nfields (ex_short 41) = 41%nat /\ fld 42 (ex_short 41) = None
+  /\ wf_kstat (ex_short 42) = true /\ nfields (ex_short 42) = 42%nat /\ fld 42 (ex_short 42) = Some (bs "7")
+  /\ wf_kstat (ex_short 38) = false.
 Proof. vm_compute. repeat split; reflexivity. Qed.
